@@ -21,6 +21,14 @@ import Inkayaku.Props.Translated.GenMake
 import Inkayaku.Props.Translated.GenUnmake
 import Inkayaku.Props.Translated.GenXor
 import Inkayaku.Props.Translated.Generated
+import Inkayaku.Props.Translated.GenerateCtor
+import Inkayaku.Props.Translated.GenerateScan
+import Inkayaku.Props.Translated.GenerateAttacks
+import Inkayaku.Props.Translated.GeneratePawns
+import Inkayaku.Props.Translated.GenerateCastle
+import Inkayaku.Props.Translated.GenerateTop
+import Inkayaku.Props.Translated.GenerateLegal
+import Inkayaku.Props.Translated.GenerateRules
 /-! Umbrella module: the equivalence theorems between the Rust functions translated on every run (`Gen/Rs/*.lean`, by
 `/verif/translator`) and the hand-written model live in `Props/Translated/*.lean`, one file per Rust source / topic.
 The first ten targets are listed in `Props/Translated/Basic.lean`; round 2 added:
@@ -44,5 +52,20 @@ MODULE GRANULARITY.  The check of a property builds only the theorem modules it 
 its theorems.  Hence one theorem file per Rust function (group): a change of `unmake` breaks `Unmake.lean`, `GenUnmake.lean` (and the
 umbrellas `MakeUnmake.lean`, `Generated.lean`, this file) but not `Make.lean`, `GenMake.lean`, `GenXor.lean`; a change of `zobrist_xor`
 breaks `ZobristXor.lean`, `GenXor.lean` only.  `MakeUnmake.lean` and `Generated.lean` only import the split files (compatibility).
+
+ROUND 3: MOVE GENERATION (property C01; `make_move` also C02).  Generated modules `MoveCtor` (the move constructor), `Generate` (constants,
+bit-scan helper, the generator helpers, the top-level generators), `GenerateLegal` (the legality filter).  `result: &mut Vec<Move>` is an
+in/out list of packed moves (`encMove m = (m.bits, m.mvvlva)`); all equalities are equalities of LISTS (same moves, same order).
+
+| Rust (board/src/board.rs)                                       | generated `Inkayaku.Rs.…` (module)                 | model                              | theorems (file) |
+|-----------------------------------------------------------------|----------------------------------------------------|------------------------------------|-----------------|
+| `Bitboard::{make_move, mvv_lva, PIECE_VALUES}`, `PlayerState::get_piece_const_by_square_{shift,mask}` | `Bitboard.make_move` … (`MoveCtor`) | `Board.mkMove`, `mvvLva`, `Side.pieceAt` | `rs_make_move_ctor_eq`, `rs_make_move_push`, `rs_make_move_panics`, `rs_piece_at`, `rs_mvv_lva` (`GenerateCtor.lean`) |
+| `mask_and_shift_from_lowest_one_bit` (lib.rs), the `while occ != 0 { pop lowest bit }` loops, rank / castling / flag constants | `mask_and_shift_from_lowest_one_bit`, `RANK_1_OCCUPANCY` … (`Generate`) | `bitsAsc`, `trailingZeros`, `Gen.BoardConsts` | `bitsAsc_pop`, `rs_mask_and_shift`, `scan_loop`, `rs_gen_consts`, `rs_flag_consts` (`GenerateScan.lean`) |
+| `Bitboard::{generate_attacks, sliding_moves, single_moves}`     | `Bitboard.sliding_moves` … (`Generate`)            | `genAttacks`, `slidingMoves`, `singleMoves` | `rs_generate_attacks_eq`, `rs_sliding_moves_eq`, `rs_single_moves_eq` (`GenerateAttacks.lean`) |
+| `Bitboard::{generate_pawn_promotion(s), generate_pawn_attacks, pawn_attacks, pawn_moves}` | `Bitboard.pawn_attacks` … (`Generate`) | `promotions`, `pawnAttacks`, `pawnMoves` | `rs_generate_pawn_promotions_eq`, `rs_generate_pawn_attacks_eq`, `rs_pawn_attacks_eq`, `rs_pawn_moves_eq` (`GeneratePawns.lean`) |
+| `Bitboard::{_is_occupancy_in_check, make_castle_move, castle_moves}` | `Bitboard.castle_moves` … (`Generate`)        | `occupancyInCheck`, `castleMoves`  | `rs_is_occupancy_in_check_eq`, `rs_make_castle_move_eq`, `rs_castle_moves_eq` (`GenerateCastle.lean`) |
+| `Bitboard::{generate_pseudo_legal_moves(_with_buffer), generate_pseudo_legal_non_quiescent_moves(_with_buffer), get_active_and_passive}` | `Bitboard.generate_pseudo_legal_moves` … (`Generate`) | `genPseudo`, `genNonQuiescent` | `rs_generate_pseudo_legal_buffer_eq`, `rs_generate_non_quiescent_buffer_eq`, `rs_generate_pseudo_legal_eq`, `rs_generate_non_quiescent_eq`, `rs_generate_pseudo_legal_wf`, `rs_generate_non_quiescent_wf` (`GenerateTop.lean`) |
+| `Bitboard::{generate_legal_moves, is_any_move_legal}`           | `Bitboard.generate_legal_moves`, `.is_any_move_legal` (`GenerateLegal`) | `genLegal`, `isAnyMoveLegal` | `rs_generate_legal_moves_eq`, `rs_is_any_move_legal_eq` (`GenerateLegal.lean`) |
+| C01 for the regenerated source                                  |                                                    | `Spec.legalMoves`, `Spec.pseudoMoves` | `rs_generate_legal_eq_rules`, `rs_generate_pseudo_legal_eq_rules` (`GenerateRules.lean`: composition with `Closure.genLegal_eq_rules` / `C01.legal_moves_exact`) |
 
 Mutation sanity check of all of these: `/verif/translator/mutation_check.sh`. -/
